@@ -74,6 +74,12 @@ class Check:
         self.forbidden = coqbuild.scan_forbidden()
         self.proof = coqbuild.check_props(self.pid, [f"extract/Extract_{self.family}.vo"])
         self.modelrun = coqbuild.build_modelrun(self.family)
+        pre = getattr(self.plugin, "prebuild", None)
+        if pre:
+            try:
+                pre()
+            except Exception as e:  # noqa: BLE001
+                raise implbuild.BuildError(f"source extraction for the harness failed: {e}")
         flags = getattr(self.plugin, "HARNESS_FLAGS", ())
         libs = getattr(self.plugin, "HARNESS_LIBS", ("-lcurl", "-lpthread"))
         self.impl, self.impl_rebuilt = implbuild.build_harness(self.family, flags, libs)
